@@ -432,14 +432,20 @@ class Arbiter:
             return
 
         master_pid = os.getpid()
+        # SIGCHLD is held back until reexec_pid is set: a child that dies at
+        # once would be reaped before its pid is known here, and reexec_pid
+        # would then name a dead process for good
+        signal.pthread_sigmask(signal.SIG_BLOCK, [signal.SIGCHLD])
         try:
-            self.reexec_pid = os.fork()
+            pid = self.reexec_pid = os.fork()
         except OSError as e:
             # no upgrade this time - but no reason to stop serving either
             self.log.error("Could not fork the new master: %s", e)
             self.reexec_pid = 0
             return
-        if self.reexec_pid != 0:
+        finally:
+            signal.pthread_sigmask(signal.SIG_UNBLOCK, [signal.SIGCHLD])
+        if pid != 0:
             return
 
         try:
